@@ -205,7 +205,7 @@ func ltxHeaderRules(c *Ctx) {
 			if k, isK := inc.Val.(*ssa.Const); isK {
 				if x, _ := constInt(k); x == 0 {
 					nz++
-					if edgeHasFact(inc.Pred, inc.Blk, truthFact(vFieldLoad("syncInfo.snapshotting", nil), true, "")) {
+					if inc.hasFact(truthFact(vFieldLoad("syncInfo.snapshotting", nil), true, "")) {
 						ok = true
 					}
 				}
@@ -214,7 +214,7 @@ func ltxHeaderRules(c *Ctx) {
 		other := false
 		for _, inc := range incs {
 			if _, isK := inc.Val.(*ssa.Const); !isK {
-				if edgeHasFact(inc.Pred, inc.Blk, truthFact(vFieldLoad("syncInfo.snapshotting", nil), false, "")) {
+				if inc.hasFact(truthFact(vFieldLoad("syncInfo.snapshotting", nil), false, "")) {
 					other = true
 				}
 			}
